@@ -49,6 +49,9 @@ func c10RunOpt(c *vt.Ctx, s c10Scenario, noGuard bool) {
 		w.settle(8)
 		w.endState()
 	}
+	if s.GCSettle {
+		w.gcSettle(6)
+	}
 	if el := time.Since(w.start); el > 2*time.Minute {
 		// the closed loop relies on "a TTL of >= 5 min cannot elapse during a case"
 		c.Inconclusive("case took longer than 2 min")
@@ -212,6 +215,9 @@ func (w *c10World) seed() {
 		w.gen[name] = 1
 		w.c.Labelf("rec:phase=%s", c10PhaseName(r.Phase))
 		w.c.Labelf("rec:pod=%s", r.Pod)
+		if r.Pod == "absent" && len(strategies) == 1 && strategies["elastic"] {
+			w.c.Labelf("rec:elastic-orphan-seeded-in-%s", c10PhaseName(r.Phase))
+		}
 		// C11 NT rule: last-seen age within one margin of a TTL boundary
 		for _, a := range r.Allocs {
 			if d, err := time.ParseDuration(a.After); err == nil && a.Fixed && a.Strategy == v1beta1.ReleaseStrategyTTL && r.SeenAgo >= 0 {
@@ -348,6 +354,11 @@ func c10GenLoop(t *rapid.T) c10Scenario {
 	s.Cards = rapid.IntRange(1, 2).Draw(t, "cards")
 	s.AgeOld = rapid.Bool().Draw(t, "age_old")
 	s.TZ = rapid.SampledFrom([]int{0, 0, 0, 8, -8}).Draw(t, "tz")
+	if rapid.IntRange(0, 3).Draw(t, "gcsettle") == 0 {
+		// the pod controller goes down at the end of the history: only the collector and the
+		// PodENI controller clean up
+		s.Settle, s.GCSettle = false, true
+	}
 	np := rapid.IntRange(1, vt.Scale(3, 4)).Draw(t, "npods")
 	state := make([]string, np)
 	for i := 0; i < np; i++ {
@@ -637,9 +648,30 @@ func TestVerifC11ClosedLoop(t *testing.T) { vt.Run(t, c10GenLoopFixed, c10Run) }
 // C10 over seeded mid-life states: the retention generator's populations (records in every phase,
 // backdated podLastSeen so that the TTL collector really gives fixed-IP records up) with both
 // reconcilers in the history - the closed loop cannot reach "fixed-IP record in Deleting"
-func TestVerifC10SeededStates(t *testing.T) { vt.Run(t, c11GenRetention, c10Run) }
-func TestVerifC11Retention(t *testing.T)    { vt.Run(t, c11GenRetention, c10Run) }
-func TestVerifC11LeakGC(t *testing.T)       { vt.Run(t, c11GenLeak, c10Run) }
+func TestVerifC10SeededStates(t *testing.T) { vt.Run(t, c10GenSeeded, c10Run) }
+
+// c10GenSeeded: the retention populations; half of the cases end with the gc-settle (pod controller
+// down), and in a third record 0 is by construction an orphan of a pod without fixed IP: elastic
+// allocations only, a phase such a record can be in, pod absent.
+func c10GenSeeded(t *rapid.T) c10Scenario {
+	s := c11GenRetention(t)
+	s.GCSettle = rapid.Bool().Draw(t, "gcsettle")
+	if rapid.IntRange(0, 2).Draw(t, "orphan") == 0 {
+		r := &s.SeedRecs[0]
+		for j := range r.Allocs {
+			r.Allocs[j].Fixed, r.Allocs[j].Strategy, r.Allocs[j].After = false, "", ""
+		}
+		for j := range s.Pods[r.P].Nets {
+			s.Pods[r.P].Nets[j] = c10Net{}
+		}
+		r.Phase = rapid.SampledFrom([]string{"", "", "Bind", "Deleting"}).Draw(t, "orphanphase")
+		r.Pod = "absent"
+		s.GCSettle = true
+	}
+	return s
+}
+func TestVerifC11Retention(t *testing.T) { vt.Run(t, c11GenRetention, c10Run) }
+func TestVerifC11LeakGC(t *testing.T)    { vt.Run(t, c11GenLeak, c10Run) }
 
 // c10GenLoopFixed is the closed-loop generator restricted to pods whose first interface
 // has a fixed IP (C11 a: recreation under the same name).
